@@ -380,3 +380,56 @@ func VerifC12AMQP() {
 	verifAssert(d.invalid == 0, "no-invalid-count-for-amqp")
 	verifCover("end")
 }
+
+// verifLongLine: n bytes, concrete filler with symbolic first/last byte that are not line terminators.
+func verifLongLine(n int) []byte {
+	line := bytes.Repeat([]byte{'a'}, n)
+	if n > 0 {
+		f := verifByte("first")
+		l := verifByte("last")
+		verifAssume(f != '\n' && f != '\r' && l != '\n' && l != '\r')
+		line[0] = f
+		line[n-1] = l
+	}
+	return line
+}
+
+// VerifC12Limits: concrete-length boundary runs. A line of exactly the supported maximum
+// (65535 bytes on TCP/UDP, 4095 bytes on AMQP) followed by a short second line is processed whole.
+func VerifC12Limits() {
+	d := &verifCapDisp{}
+	var stream []byte
+	switch verifParam("path") {
+	case "tcp":
+		line := verifLongLine(65535)
+		stream = append(append(append([]byte{}, line...), '\n'), 'b', '\n')
+		cutset := []int{0, 1, 4095, 4096, 4097, 65534, 65535, 65536}
+		cut := cutset[verifChoice("cut", len(cutset))]
+		r := &verifCutReader{data: stream, cuts: []int{cut}, endErr: io.EOF}
+		err := NewPlain(d).Handle(r)
+		verifAssert(err == nil, "eof-is-not-an-error")
+	case "udp":
+		line := verifLongLine(65532)
+		stream = append(append(append([]byte{}, line...), '\n'), 'b', '\n')
+		if verifChoice("unterminated", 2) == 1 {
+			stream = verifLongLine(65535)
+		}
+		l := NewListener("verif:2003", 0, NewPlain(d))
+		l.HandleData(l, stream, nil)
+	case "amqp":
+		line := verifLongLine(4095)
+		stream = append(append(append([]byte{}, line...), '\n'), 'b', '\n')
+		ch := make(chan amqp.Delivery)
+		a := &Amqp{dispatcher: d, shutdown: make(chan struct{}), delivery: ch}
+		done := make(chan struct{})
+		go func() {
+			a.consumeAMQP()
+			close(done)
+		}()
+		ch <- amqp.Delivery{Body: stream}
+		close(a.shutdown)
+		<-done
+	}
+	verifCheckLines(stream, d.copies)
+	verifCover("end")
+}
